@@ -200,7 +200,7 @@ pub fn run(tier: Tier, seed: u64) -> i32 {
         "errors returned by the program are not constrained (only successful computations are)".into(),
         "native build with overflow-checks=false (release profile of /repo)".into(),
     ];
-    let n: u64 = tier.pick(4_000_000, 400_000_000);
+    let n: u64 = tier.pick(16_000_000, 400_000_000);
     let shards = 16;
     let acc = run_shards(shards, seed, move |_shard, s| {
         let mut r = rnd::rng(s);
